@@ -30,6 +30,27 @@ def main():
         for m in MUTANTS:
             if sel and not any(s in m["name"] for s in sel):
                 continue
+            if m.get("patch"):
+                # a unified diff (seeded change or hand-made harmless refactoring) applied with `git apply` semantics via patch(1)
+                pf = os.path.join(ROOT, m["patch"])
+                r0 = subprocess.run(["patch", "-p1", "-s", "-d", dst, "-i", pf], capture_output=True, text=True)
+                if r0.returncode != 0:
+                    print(f"SKIP {m['name']}: patch does not apply: {r0.stdout[-200:]}")
+                    bad += 1
+                    continue
+                env = dict(os.environ, VERIF_REPO=dst, VERIF_NO_REPLAY_SEARCH="1")
+                cmd = [os.path.join(ROOT, "check"), m["prop"], "--no-evidence"]
+                for u in m.get("units", []):
+                    cmd += ["--unit", u]
+                r = subprocess.run(cmd, capture_output=True, text=True, env=env)
+                subprocess.run(["patch", "-p1", "-R", "-s", "-d", dst, "-i", pf], capture_output=True, text=True)
+                ok = r.returncode == m["expect"]
+                lines = [l for l in r.stdout.splitlines() if l.startswith(("VIOLATION", "UNDECIDED", "KNOWN"))]
+                print(f"{'ok  ' if ok else 'BAD '} {m['name']}: rc={r.returncode} expected={m['expect']}  {lines[:1]}")
+                if not ok:
+                    bad += 1
+                    print(r.stdout[-1500:], r.stderr[-1500:])
+                continue
             p = os.path.join(dst, m["file"])
             orig = open(p).read()
             if orig.count(m["old"]) != m.get("count", 1):
